@@ -273,8 +273,10 @@ def case_c02(rep, spec):
             tol += 1e-5 * (1 + abs(ld))
         nontriv = (z["name"], p["tag"][:24]) if abs(refs[0][0]) > 1e-9 else None
         rep.count(1, nontriv)
+        if not np.isfinite(ld):          # (the tolerance is relative to |ld|: an infinite report would pass any comparison)
+            tol = 1e-8 + 1e3 * EPS * kap
         ok = any(abs(ld - r[0]) <= tol for r in refs)
-        if not ok:      # autodiff tie artefact?  finite differences decide (to 1e-4: the artefacts are multiples of ln 2)
+        if not ok and np.isfinite(ld):      # autodiff tie artefact?  finite differences decide (to 1e-4: the artefacts are multiples of ln 2)
             try:
                 fds = _fd_logdets(b, x, c)
                 ok = any(abs(ld - f) <= 2e-4 * (1 + abs(ld)) * max(1.0, kap ** 0.5) for f in fds)
@@ -282,7 +284,7 @@ def case_c02(rep, spec):
                     rep.add("autodiff_tie_resolved_by_finite_differences")
             except Exception:  # noqa: BLE001
                 pass
-        if not ok:
+        if not ok and np.isfinite(ld):
             # the point (or its one-ulp neighbour) can tie -- its image lands exactly on a clip bound -- and finite differences
             # are too coarse for a spline whose derivative varies by 1e5 per unit: extrapolate the autodiff log-det linearly
             # from 2^10 and 2^11 ulps away, along every coordinate direction (a wrong log-det differs from all of them)
